@@ -1,12 +1,27 @@
-"""Source pins: the functions / classes / module-level tables of /repo that a property's HAND-WRITTEN model transcribes.
+"""Source pins: the code of /repo a property check is tied to, item by item, by a hash of the normalised AST.
 
-pins/<id>.json = {"pinned_at": "<repo commit>", "items": [{"file": "src/qutip_qip/...py", "name": "Class.method" | "function" |
-"NAME" (module-level assignment) | "Class" (whole class), "hash": "<sha256 of the normalised AST>"}]}.
-A check recomputes every hash from the working tree of $VERIF_REPO.  A difference means: the code the model was written from is no
-longer the code that is there, so the tie between model and code is broken for that item (obligation `source-pin`); the check then
-searches for a failing input like for any other broken obligation.  The normalised AST ignores comments, blank lines, formatting and
-docstrings, nothing else.  Pins are refreshed by hand with `py/tools/pin_sources.py` after the model has been re-validated against
-changed code (never at run time)."""
+pins/<id>.json = {"pinned_at": "<repo commit>", "traversed_at": "<repo commit>", "items": [{"file": "src/qutip_qip/...py",
+"name": "Class.method" | "function" | "NAME" (module-level assignment) | "Class.NAME" (class-level assignment) | "Class" (whole
+class), "hash": "<sha256 of the normalised AST>", "kind": "transcribed" (default when absent) | "traversed"}]}.
+
+Two kinds of items:
+* transcribed — the functions / methods / tables the property's HAND-WRITTEN model (lean/QipVerif/Model/*.lean) transcribes, the
+  translator reads structurally, or whose contract the model assumes.  Listed by hand.
+* traversed   — the glue: every function / method / property of src/qutip_qip that is EXECUTED while the property's quick check
+  runs on the clean tree (regeneration, correspondence, known findings, corpus, oracle sweeps; helper processes included), plus all
+  module-level assignments of every file in which such a function lives and the class-level assignments of every class one of whose
+  methods ran (constructors, base classes, helpers, defaults, tables).  MEASURED by `py/tools/pin_traversed.py` with the call
+  tracer below (`VERIF_TRACE_CALLS=<file>`), never listed by hand.  Code that is only imported (module and class bodies) does not
+  count; version.py and __init__.py are left out.  The set is what ONE quick run (default seed) executes: it shows which code the
+  check's inputs pass through, not that the check would notice a behavioural change there.
+
+A check recomputes every hash from the working tree of $VERIF_REPO.  A difference means: the code the model was written from /
+the check was measured through is no longer the code that is there, so the tie between model and code is broken for that item
+(obligation `source-pin`, the text names the kind); the check then searches for a failing input like for any other broken
+obligation (`VIOLATION … replay=…`, or `… no-failing-input-found` when behaviour is unchanged).  The normalised AST ignores
+comments, blank lines, formatting and docstrings, nothing else; a property's getter and setter are hashed together.  Hashes are
+refreshed by hand with `py/tools/pin_sources.py` (both kinds alike) after the model has been re-validated against changed code; the
+traversed SET is re-measured with `py/tools/pin_traversed.py` (never at run time)."""
 import ast, hashlib, json, os
 from .paths import REPO, VERIF as ROOT
 
@@ -39,16 +54,29 @@ def _find(tree, name):
         scopes = [getattr(n, "body", []) for n in nodes]
     return nodes
 
-def item_hash(repo, file, name):
+def item_hash(repo, file, name, _trees=None):
+    """hash of one item; `_trees`: optional dict used as a cache of parsed files (docstrings stripped once per file)"""
     path = os.path.join(repo, file)
     try:
-        tree = ast.parse(open(path).read())
+        if _trees is not None:
+            if path not in _trees:
+                try:
+                    _trees[path] = _strip_docstrings(ast.parse(open(path).read()))
+                except (OSError, SyntaxError):
+                    _trees[path] = None
+            tree = _trees[path]
+            if tree is None:
+                return None
+        else:
+            tree = ast.parse(open(path).read())
     except (OSError, SyntaxError):
         return None
     nodes = _find(tree, name)
     if not nodes:
         return None
-    text = "\n".join(ast.dump(_strip_docstrings(n), annotate_fields=True, include_attributes=False) for n in nodes)
+    if _trees is None:
+        nodes = [_strip_docstrings(n) for n in nodes]
+    text = "\n".join(ast.dump(n, annotate_fields=True, include_attributes=False) for n in nodes)
     return hashlib.sha256(text.encode()).hexdigest()[:24]
 
 def pin_file(pid):
@@ -58,14 +86,118 @@ def load(pid):
     p = pin_file(pid)
     return json.load(open(p)) if os.path.exists(p) else {"items": []}
 
-def check(pid, repo=None):
-    """-> list of (file, name, why) for every pinned item whose source is not the pinned one"""
+def kind_of(it):
+    return it.get("kind") or "transcribed"
+
+def counts(pid):
+    """-> (number of transcribed items, number of traversed items)"""
+    items = load(pid).get("items", [])
+    t = sum(1 for it in items if kind_of(it) == "traversed")
+    return len(items) - t, t
+
+def check_kinds(pid, repo=None):
+    """-> list of (file, name, why, kind) for every pinned item whose source is not the pinned one"""
     repo = repo or REPO
     out = []
+    trees = {}
     for it in load(pid).get("items", []):
-        h = item_hash(repo, it["file"], it["name"])
+        h = item_hash(repo, it["file"], it["name"], trees)
         if h is None:
-            out.append((it["file"], it["name"], "not found in the source"))
+            out.append((it["file"], it["name"], "not found in the source", kind_of(it)))
         elif h != it.get("hash"):
-            out.append((it["file"], it["name"], "source differs from the pinned text"))
+            out.append((it["file"], it["name"], "source differs from the pinned text", kind_of(it)))
     return out
+
+def check(pid, repo=None):
+    """-> list of (file, name, why) for every pinned item (of either kind) whose source is not the pinned one"""
+    return [m[:3] for m in check_kinds(pid, repo)]
+
+def describe(moved, limit=8):
+    """the broken-obligation texts for the result of check_kinds: one per kind, naming the kind"""
+    out = []
+    for kind, label in (("transcribed", "source-pin (transcribed): modelled source changed (the model was written from other text): "),
+                        ("traversed", "source-pin (traversed glue): code the check passes through changed (the traversed set was "
+                                      "measured on other text): ")):
+        m = [x for x in moved if x[3] == kind]
+        if m:
+            out.append(label + "; ".join(f"{f}::{n} ({why})" for f, n, why, _ in m[:limit])
+                       + (f" … and {len(m) - limit} more" if len(m) > limit else ""))
+    return out
+
+
+# ------------------------------------------------------------------------------------------------------------------
+# call tracer (VERIF_TRACE_CALLS=<outfile>): which code objects of $VERIF_REPO/src/qutip_qip are executed by this process
+# and by the processes it forks / starts (they inherit the variable and import vlib.core).  Every NEW code object is written
+# through at once as one JSON line [file, qualname, first line, "func" | "class" | "module"] to <outfile>.<pid>, so helper
+# processes that leave with os._exit lose nothing.  Python >= 3.12: sys.monitoring PY_START with DISABLE per code object (no
+# cost after the first call); older: sys.setprofile / threading.setprofile.
+
+_TRACE = {"on": False}
+
+def install_tracer_from_env():
+    out = os.environ.get("VERIF_TRACE_CALLS")
+    if not out or _TRACE["on"]:
+        return False
+    import sys
+    roots = {os.path.join(REPO, "src", "qutip_qip") + os.sep, os.path.join(os.path.realpath(REPO), "src", "qutip_qip") + os.sep}
+    roots = tuple(roots)
+    cut = {r: len(r) - len(os.path.join("src", "qutip_qip") + os.sep) for r in roots}
+    seen = set()
+    st = {"pid": None, "fh": None}
+
+    def record(code):
+        fn = code.co_filename
+        if not fn.startswith(roots):
+            return
+        key = (fn, getattr(code, "co_qualname", code.co_name), code.co_firstlineno)
+        if key in seen:
+            return
+        seen.add(key)
+        pid = os.getpid()
+        if st["pid"] != pid:                         # first record of this process (also: a forked child)
+            st["pid"], st["fh"] = pid, open(f"{out}.{pid}", "a", buffering=1)
+        root = next(r for r in roots if fn.startswith(r))
+        kind = "module" if code.co_name == "<module>" else ("func" if code.co_flags & 0x1 else "class")
+        st["fh"].write(json.dumps([fn[cut[root]:], key[1], key[2], kind]) + "\n")
+
+    mon = getattr(sys, "monitoring", None)
+    if mon is not None:
+        tool = None
+        for tid in (mon.PROFILER_ID, 3, 4, mon.COVERAGE_ID):
+            try:
+                mon.use_tool_id(tid, "verif-trace-calls")
+                tool = tid
+                break
+            except ValueError:
+                continue
+        if tool is not None:
+            def on_start(code, offset):
+                record(code)
+                return mon.DISABLE
+            mon.register_callback(tool, mon.events.PY_START, on_start)
+            mon.set_events(tool, mon.events.PY_START)
+            _TRACE["on"] = True
+            return True
+    import threading
+
+    def prof(frame, event, arg):
+        if event == "call":
+            record(frame.f_code)
+    sys.setprofile(prof)
+    threading.setprofile(prof)
+    _TRACE["on"] = True
+    return True
+
+def read_trace(out):
+    """-> set of (file, qualname, first line, kind) from <out>.<pid> of every process of one traced run"""
+    import glob
+    recs = set()
+    for p in glob.glob(out + ".*"):
+        for line in open(p):
+            line = line.strip()
+            if line:
+                try:
+                    recs.add(tuple(json.loads(line)))
+                except ValueError:
+                    pass                             # a line cut off by a killed helper
+    return recs
